@@ -165,6 +165,10 @@ func main() {
 		c10child()
 		return
 	}
+	if prop == "C20child" {
+		c20child()
+		return
+	}
 	if prop == "C14child" {
 		c14child()
 		return
